@@ -2,7 +2,7 @@
    tables lr1.py builds for it (dumped by harness/lr_tables.py: symbols $=0 S=1 a=2
    b=3 S'=4), once as a defaultdict-backed and once as a dict-backed copy. *)
 From Coq Require Import Arith NArith PArith List Bool FMapPositive.
-Require Import EmbossV.LR.Driver EmbossV.LR.Sound EmbossV.LR.Bisim EmbossV.LR.Complete EmbossV.LR.Exec.
+Require Import EmbossV.LR.Driver EmbossV.LR.Sound EmbossV.LR.Bisim EmbossV.LR.Complete EmbossV.LR.Early EmbossV.LR.Exec.
 Import ListNotations.
 Open Scope N_scope.
 
@@ -111,3 +111,89 @@ Proof.
   eapply run_sound; [exact ex_check_sound| |exact ex_accepts].
   vm_compute. intros [H|[H|[H|[H|[]]]]]; discriminate.
 Qed.
+
+(* ---- error_not_early: non-vacuity on the example grammar ---- *)
+
+Definition exRank : pcert := nset nempty 1 1.      (* S has rank 1 via S -> <empty> *)
+
+Example ex_check_early : check_early exG exT exI = true.
+Proof. vm_compute. reflexivity. Qed.
+
+Example ex_check_productive : check_productive exG exRank = true.
+Proof. vm_compute. reflexivity. Qed.
+
+Lemma error_not_early_nonvacuous :
+  exists G T C I R fuel toks c i tok st e,
+    check_sound G T C = true /\ check_early G T I = true /\ check_productive G R = true /\
+    run T fuel toks = Rejected c i tok st e /\ (0 < i)%nat.
+Proof.
+  exists exG, exT, exC, exI, exRank, 100%nat, [2;3;3]. do 5 eexists.
+  split; [exact ex_check_sound|]. split; [exact ex_check_early|]. split; [exact ex_check_productive|].
+  split; [exact ex_rejects|]. repeat constructor.
+Qed.
+
+(* ---- error_not_early is false without productivity: the grammar S -> a S (symbols $=0 S=1 a=2),
+   tables, item sets and FIRST sets as lr1.py builds them (no conflict is reported).  This is the
+   unchanged-tree finding lr1-error-reported-late:unproductive-nonterminals. ---- *)
+
+Definition rf_lines : list (list N) :=
+ [[2;0;1;2;1]; [2;1;3;1]; [1;1;0;1];
+  [20;0;0;0;0]; [20;0;1;0;0]; [20;1;0;1;0]; [20;2;1;0;0]; [20;2;1;1;0]; [20;3;1;2;0];
+  [3;0;2;0;2]; [3;1;0;2;0]; [3;2;2;0;2]; [3;3;0;1;0]; [4;0;1;1]; [4;2;1;3]; [6;0;1];
+  [7;0]; [7;1;1]; [7;2;2]; [7;3;1;2]; [8]; [9;1;1;0]; [21;1;0;2]].
+
+Definition rf_state := final rf_lines.
+Definition rfG : grammar := {| g_start := 1; g_prods := [(1, [2; 1])] |}.
+Definition rfT := slot_tables rf_state 1.
+Definition rfC := slot_cert rf_state 1.
+Definition rfI := slot_items rf_state 1.
+Definition rfF := x_first rf_state.
+
+Example rf_grammar_is_dumped : slot_grammar rf_state 1 = rfG.
+Proof. vm_compute. reflexivity. Qed.
+
+Example rf_checks :
+  check_sound rfG rfT rfC = true /\ check_complete rfG rfT rfI rfF = true /\ check_early rfG rfT rfI = true.
+Proof. vm_compute. auto. Qed.
+
+Example rf_run : run rfT 100 [2; 2; 2] = Rejected 0 3 0 2 [2].
+Proof. vm_compute. reflexivity. Qed.
+
+Lemma rf_unproductive : forall R, check_productive rfG R = false.
+Proof.
+  intros R. unfold check_productive, rfG. cbn [g_prods forallb existsb fst snd].
+  rewrite N.eqb_refl. cbn [andb]. replace (is_nonterminal {| g_start := 1; g_prods := [(1, [2; 1])] |} 1) with true by reflexivity.
+  cbn [negb orb]. rewrite N.ltb_irrefl. rewrite andb_false_r. reflexivity.
+Qed.
+
+Lemma rf_empty_language_aux :
+  (forall X t i w, derives rfG X t i w -> X = 1 -> False) /\
+  (forall Xs ts i w, derives_list rfG Xs ts i w -> In 1 Xs -> False).
+Proof.
+  apply (derives_mutind rfG (fun X _ _ _ _ => X = 1 -> False) (fun Xs _ _ _ _ => In 1 Xs -> False)).
+  - intros a i Hn Ha. subst a. vm_compute in Hn. discriminate.
+  - intros lhs rhs cs i w Hin Hd IH _. destruct Hin as [Hin|[]]. inversion Hin. subst. apply IH. right. left. reflexivity.
+  - intros i [].
+  - intros X Xs t ts i w1 w2 Hd IH1 Hl IH2 [HX|HX]; [apply IH1; exact HX|apply IH2; exact HX].
+Qed.
+
+(* every check of the development passes except productivity, the parser shifts three tokens
+   and reports the error at index 3, but no sentence exists at all *)
+Lemma error_not_early_refuted :
+  exists G T C I F fuel toks c i tok st e,
+    check_sound G T C = true /\ check_complete G T I F = true /\ check_early G T I = true /\
+    (forall R, check_productive G R = false) /\
+    run T fuel toks = Rejected c i tok st e /\
+    ~ exists suffix t, derives G (g_start G) t 0%nat (firstn i toks ++ suffix).
+Proof.
+  exists rfG, rfT, rfC, rfI, rfF, 100%nat, [2;2;2]. do 5 eexists.
+  destruct rf_checks as [H1 [H2 H3]].
+  split; [exact H1|]. split; [exact H2|]. split; [exact H3|]. split; [exact rf_unproductive|].
+  split; [exact rf_run|]. intros [suffix [t Hd]].
+  exact (proj1 rf_empty_language_aux _ _ _ _ Hd eq_refl).
+Qed.
+
+(* check_early is not trivially true: an edge into a state whose kernel does not stem from the
+   source state is rejected (state 0 --a--> 6, whose kernel is [S -> a S . b]) *)
+Example ex_check_early_rejects : check_early exG (set_action exT 0 [(2, Shift 6)]) exI = false.
+Proof. vm_compute. reflexivity. Qed.
